@@ -132,7 +132,9 @@ def build_evidence(prop, tier, seed, spec, results, violations, known, inconclus
                  "path classes that reached an assertion, cfa-bmc unrolled steps with a satisfiable reachability witness"),
         "samples": samples[:12],
         "exhaustive": False,
-        "obligations": [
+        "obligations": len(results),
+        "discharged": sum(1 for r in results if r.status == "pass"),
+        "obligation_details": [
             {"id": r.oid, "engine": r.engine, "status": r.status, "functions": r.functions, "bounds": r.bounds,
              "queries": r.queries, "nontrivial": r.nontrivial, "paths": r.paths, "solver_s": round(r.solver_s, 3),
              "wall_s": round(r.wall_s, 2), "stubs": r.stubs, "models": r.models, "note": r.note[:400],
